@@ -12,7 +12,9 @@ pub const REPLS: &[&str] = &["", "x", "$0", "$1", "$2$1", "$10", "\\$", "\\\\", 
 
 /// hostile pattern strings: valid, mutated, garbage, extreme bounds, nesting
 pub fn gen_hostile(rng: &mut Rng, max_nest: usize) -> (String, Option<Node>) {
-    let cfg = GenCfg::std(STD_ALPHA);
+    // metacharacters as literals (rendered escaped, also inside classes): the helpers that re-scan
+    // the pattern text (nesting table, flag x stripper) must cope with them
+    let cfg = GenCfg::std(&['a', 'b', 'A', 'B', '1', ' ', '\n', 'a', 'b', '\u{10400}', '[', ']', '(', ')', '\\', '{', '-', '^', '$', '|']);
     match rng.below(12) {
         0 | 1 => {
             let a = gen_pattern(rng, &cfg);
@@ -181,10 +183,13 @@ impl Monitor for C05 {
         for _ in 0..n {
             let (p, ast) = gen_hostile(&mut rng, 40);
             let fl = *rng.pick(&flagsets);
-            let inp = hostile_input(&mut rng, &p);
+            // for patterns with a known AST, half of the inputs are derived from a sampled match
+            let inp = match &ast {
+                Some(a) if rng.chance(1, 2) => gen_input(&mut rng, a, &['a', 'b', '\n', ']', '('], 8),
+                _ => hostile_input(&mut rng, &p),
+            };
             let mut c = Case::raw(&p, fl, &inp);
             c.ast = None;
-            let _ = ast;
             if rng.chance(1, 4) {
                 c.repl = Some(gen_garbage(&mut rng, 6));
             }
@@ -282,6 +287,7 @@ impl Monitor for C06 {
     fn check(&self, c: &Case, obs: &mut Obs) -> Outcome {
         let ast = match ast_of(c) {
             Some(a) => a,
+            None if c.flags.contains('q') && c.pattern.chars().count() <= C06_MAX_NODES => Node::Repeat { body: Box::new(Node::Char('q')), min: 1, max: Some(1), greedy: true, spell: 0 },
             None => return Outcome::Inconclusive("no_ast"),
         };
         let in_bounds = ast.size() <= C06_MAX_NODES && ast.quant_depth() <= C06_MAX_QDEPTH && c.input.chars().count() <= C06_MAX_INPUT;
@@ -370,8 +376,18 @@ impl Monitor for C06 {
             }
             made += 1;
             let fl = *rng.pick(&["", "", "m", "s", "i"]);
-            let inp = gen_input(&mut rng, &ast, &['a', 'b', 'c', '\n'], C06_MAX_INPUT);
+            let inp: String = gen_input(&mut rng, &ast, &['a', 'b', 'c', '\n'], C06_MAX_INPUT).chars().take(C06_MAX_INPUT).collect();
             emit(Case::new(&ast, fl, &inp));
+        }
+        // (c) literal patterns (flag q), incl. the empty literal, through all APIs
+        if w.shard == 0 {
+            for p in ["", "a", "(", " ", "a*", "^", "()"] {
+                for f in ["q", "qi", "qx", "qm", "qs"] {
+                    for inp in ["", "a", "abc", "a*( "] {
+                        emit(Case::raw(p, f, inp));
+                    }
+                }
+            }
         }
         desc.set("random_patterns_this_shard", J::u(n));
         desc.set("bounds", J::obj().with("max_nodes", J::u(C06_MAX_NODES as u64)).with("max_quantifier_nesting", J::u(C06_MAX_QDEPTH as u64)).with("max_input_len", J::u(C06_MAX_INPUT as u64)));
